@@ -242,6 +242,32 @@ def run(rep, tier):
                       "locks" if lock else "unlocks", m[0], m[1], "Lock" if lock else "Unlock",
                       "id" if lock else "(id+1) % nthreads_"), pd.loc(n), sample=True)
 
+    # ================================================================ R5.9 preloaded first frame
+    rep.rule("R5.9", "the first selected frame is preloaded into worker 0's topology: only worker 0 may skip NextFrame while is_first_frame_ is set, and only "
+                     "worker 0 clears the flag (otherwise another worker clears it first and worker 0 overwrites the preloaded frame: one frame is lost)")
+    g_pd = CFG(pd)
+    clears = [n for n in pd.walk() if n.get("k") == "assign" and n["op"] == "=" and unwrap(n["lhs"]).get("field") == APP + "is_first_frame_"]
+    idcmp = [n for n in pd.walk() if n.get("k") == "binop" and n["op"] in ("==", "!=") and "getId()" in show(n) and show(n["rhs"]) in ("0",)]
+    ok = bool(clears)
+    for c_ in clears:
+        req = False
+        for ic in idcmp:
+            want = (ic["op"] == "==")
+            if g_pd.edge_required(ic["id"], want, c_["id"]) is True:
+                req = True
+        ok = ok and req and show(c_["rhs"]) == "false"
+    rep.check(ok, "R5.9", "first-frame-cleared-by-worker0", "is_first_frame_ = false only on the path where getId() == 0",
+              "ProcessData clears is_first_frame_ on a path not restricted to worker 0: a worker that enters first clears it, worker 0 then reads a new frame over the "
+              "preloaded first frame, which is never evaluated (unordered mode, --nt >= 2)", pd.loc(clears[0] if clears else None), sample=True)
+    skip_ok = False
+    for n in nf_calls:
+        gs = [a for a in pd.ancestors(n) if a.get("k") == "if"]
+        if gs:
+            c_ = re.sub(r"\s", "", show(gs[0]["cond"]))
+            skip_ok = c_ in ("(!is_first_frame_||(worker->getId()!=0))", "((worker->getId()!=0)||!is_first_frame_)")
+    rep.check(skip_ok, "R5.9", "first-frame-skip-guard", "NextFrame is skipped only for worker 0 while is_first_frame_ is set",
+              "the guard around NextFrame in ProcessData is not `!is_first_frame_ || id != 0`", pd.loc(nf_calls[0] if nf_calls else None))
+
     # ================================================================ Worker::Run
     wr = F.one(APP + "Worker::Run")
     rep.analysed(wr)
